@@ -7,6 +7,7 @@ package main
 import (
 	"bufio"
 	"context"
+	"os"
 	"encoding/hex"
 	"encoding/json"
 	"fmt"
@@ -1164,9 +1165,13 @@ func (w *sysWorld) step(f []string) (res int, requeued bool) {
 	return 0, false
 }
 
+const stallTimeout = 20 * time.Second
+
 func runSys(sc *bufio.Scanner, out *bufio.Writer) {
 	var w *sysWorld
+	lineNo := 0
 	for sc.Scan() {
+		lineNo++
 		line := strings.TrimSpace(sc.Text())
 		if line == "" || strings.HasPrefix(line, "#") {
 			continue
@@ -1182,7 +1187,25 @@ func runSys(sc *bufio.Scanner, out *bufio.Writer) {
 		}
 		w.effects = nil
 		before := w.cacheHashes()
-		res, rq := w.step(f)
+		// watchdog: a step that does not return (e.g. a lock taken twice on one path) is a stall inside a single
+		// work item; the process state is unusable afterwards, so the run ends here with a STALL report
+		type stepRes struct {
+			res int
+			rq  bool
+		}
+		ch := make(chan stepRes, 1)
+		go func() { r, q := w.step(f); ch <- stepRes{r, q} }()
+		var res int
+		var rq bool
+		select {
+		case sr := <-ch:
+			res, rq = sr.res, sr.rq
+		case <-time.After(stallTimeout):
+			fmt.Fprintf(out, "STALL op=%s\n", line)
+			out.Flush()
+			fmt.Fprintf(os.Stderr, "STALL line=%d op=%s\n", lineNo, line)
+			os.Exit(3)
+		}
 		// C20 runtime monitor: objects that were in the cache before the step and are still the same
 		// cached instance must be byte-for-byte unchanged unless the step itself replaced them
 		hash := "same"
